@@ -254,6 +254,16 @@ func (p c05) hostileSession(c *fw.Ctx, uniq *int) []string {
 		for k := 0; k < 1+r.IntN(4); k++ {
 			body = append(body, uses[r.IntN(len(uses))])
 		}
+		// (a function printed with %d shows Go pointers, which differ from run to run whatever the registers do)
+		if strings.Contains(strings.Join(body, ";"), "func V") {
+			kept := body[:0]
+			for _, u := range body {
+				if !strings.Contains(u, "sprintf") {
+					kept = append(kept, u)
+				}
+			}
+			body = kept
+		}
 		if r.IntN(3) > 0 {
 			if r.IntN(6) == 0 {
 				body = append(body, []string{"for V := 2 {print(V)}", "for V := 1:3 {t = t + V}"}[r.IntN(2)]) // last: nothing reads V after it
